@@ -191,7 +191,7 @@ def repo_test_events(chk):
     return evs, p.stdout
 
 
-def run(chk, rnd, stats, thorough):
+def run(chk, rnd, stats, thorough, repo_job=None):
     import trace_util
     tr = TRACER
     events = []
@@ -200,7 +200,7 @@ def run(chk, rnd, stats, thorough):
         events += tr.events
         stats["trace_array_ufunc_calls_seen"] = tr.calls
         stats["trace_inner_call_raised(not judged)"] = tr.inner_raised
-    revs, log = repo_test_events(chk)
+    revs, log = repo_job.result() if repo_job is not None else repo_test_events(chk)
     stats["trace_events_from_repo_tests"] = len(revs)
     stats["trace_repo_tests_summary"] = (log.strip().splitlines() or [""])[-1][:200]
     events += revs
@@ -227,11 +227,42 @@ def run(chk, rnd, stats, thorough):
 
 
 def replay(doc):
-    """re-validate a stored event with TLC (the event is the abstraction of a real call)"""
+    """rebuild operands of the recorded kinds, repeat the call on the real code under the
+    tracer and let TLC judge the events it produces"""
     import trace_util
-    e = dict(doc["case"]["event"])
-    e["id"] = 1
-    rejected, n = trace_util.validate("Trace_Ufunc", [e], timeout=300)
+    import ufunc_replay as ur
+    e = doc["case"]["event"]
+    heap0 = [(o["cls"] if o["kind"] == "sig" else o["kind"]) for o in e["objs"]]
+    outs = [o for o in e["outs"]]
+    w = ur.build_world(heap0, random.Random(doc["case"].get("seed", 0)), "np", out_idx=[o - 1 for o in outs if o],
+                       force_full=True, square=e["matmul"])
+    tr = Tracer(rate=1.0)
+    tr.install()
+    try:
+        uf = getattr(np, e["u"])
+        m = e["m"]
+        a_ins = [w.objs[i - 1] for i in e["ins"]]
+        a_outs = [w.objs[o - 1] if o else None for o in outs]
+        try:
+            with np.errstate(all="ignore"):
+                if m == "call":
+                    uf(*a_ins, **({"out": tuple(a_outs)} if any(o is not None for o in a_outs) else {}))
+                elif m == "at":
+                    uf.at(*a_ins)
+                else:
+                    getattr(uf, m)(*a_ins, **({"out": a_outs[0]} if a_outs and a_outs[0] is not None else {}))
+        except Exception as ex:  # noqa
+            print("call raised %r" % (ex,))
+    finally:
+        tr.uninstall()
+    evs = tr.events
+    for i, x in enumerate(evs):
+        x["id"] = i + 1
+    print("re-executed %s.%s on %s: %d event(s)" % (e["u"], e["m"], w.info, len(evs)))
+    if not evs:
+        print("case passes (no event produced)")
+        return 0
+    rejected, n = trace_util.validate("Trace_Ufunc", evs, timeout=300)
     for ev, failed in rejected:
         print("VIOLATION property=C17 replay=(this case)  # trace:%s" % "+".join(sorted(failed)))
     if not rejected:
